@@ -9,7 +9,7 @@
 (* so that every event is judged); the driver requires that the number of  *)
 (* distinct states equals 1 + K + N, i.e. that every event was evaluated.  *)
 (***************************************************************************)
-EXTENDS EditCheck, SerdeModel, DepthDef, Containers, WalkDef, BuildDef, ParseStateImpl, Json, IOUtils
+EXTENDS EditCheck, SerdeModel, DepthDef, Containers, WalkDef, BuildDef, EncodeImpl, Json, IOUtils
 
 Ev == ndJsonDeserialize(IOEnv.TRACE)
 N == Len(Ev)
@@ -569,6 +569,33 @@ EditSteps(i, steps, j, prev, loose0) ==
                           /\ EditSteps(i, steps, j + 1, st.text, loose)
 CheckEdit(i) == EditSteps(i, Ev[i].steps, 1, Ev[i].start, FALSE)
 
+RECURSIVE FoldPSV(_, _, _)
+FoldPSV(ps, h, i) == IF i > Len(h) \/ ~ps.ok THEN ps ELSE FoldPSV(ApplyPS(ps, h[i]), h, i + 1)
+
+\* ---- model drift: the implementation-shaped printer (EncodeImpl) against the statement order of the real one ----
+\* the start document as parsed by ParseStateImpl, then insert / remove on standard-table positions carried through
+\* the history on the in-memory tree; other operations (or positions inside values) end the comparison
+RECURSIVE EncSteps(_, _, _, _)
+EncSteps(i, steps, j, root) ==
+  IF j > Len(steps) THEN TRUE
+  ELSE LET st == steps[j] IN
+       IF st.res # "ok" \/ st.op \notin {"insert", "remove"} \/ st.path \notin TblPaths(root, <<>>) THEN TRUE
+       ELSE LET m == [op |-> st.op, key |-> st.key, it |-> IF st.v.k = "t" THEN NewApiTable(st.v.v[1].val) ELSE ValItem(st.v)]
+                r2 == EditAt(root, st.path, m)
+                real == Statements(st.text)
+            IN IF ~real.ok THEN TRUE
+               ELSE IF Shape(PrintStmts(r2)) = Shape(real.stmts) THEN EncSteps(i, steps, j + 1, r2)
+               ELSE Report(i, "drift-encode", [step |-> j, op |-> st.op, model |-> Shape(PrintStmts(r2)), impl |-> Shape(real.stmts)]) /\ FALSE
+CheckEncodeDrift(i) ==
+  LET s == Statements(Ev[i].start) IN
+  IF ~s.ok THEN TRUE
+  ELSE LET ps0 == FoldPSV(InitPS, s.stmts, 1)
+           ps == IF ps0.ok THEN IntoDocument(ps0) ELSE ps0
+       IN IF ~ps.ok THEN TRUE
+          ELSE IF Shape(PrintStmts(ps.root)) # Shape(s.stmts)
+               THEN Report(i, "drift-encode", [step |-> 0, op |-> "print", model |-> Shape(PrintStmts(ps.root)), impl |-> Shape(s.stmts)]) /\ FALSE
+          ELSE EncSteps(i, Ev[i].steps, 1, ps.root)
+
 \* ---- C18: feature configurations change performance or ordering only ----
 \* ORDER: preserve_order makes toml::Table iterate and print in insertion order; LIMIT: unbounded lifts the recursion limit
 HasPreserveOrder(cell) == cell \in {"preserve_order", "perf+preserve_order"}
@@ -587,8 +614,6 @@ CheckDigest(i) ==
 CheckCfgBuild(i) == IF Ev[i].ok THEN TRUE ELSE Report(i, "config-does-not-build", [cell |-> Ev[i].cell]) /\ FALSE
 
 \* ---- model drift: the implementation-shaped parser state against the real parser's flags ----
-RECURSIVE FoldPSV(_, _, _)
-FoldPSV(ps, h, i) == IF i > Len(h) \/ ~ps.ok THEN ps ELSE FoldPSV(ApplyPS(ps, h[i]), h, i + 1)
 CheckFlags(i) ==
   LET e == Ev[i]
       s == Statements(e.text)
@@ -624,7 +649,7 @@ CheckEvent(i) ==
     [] Ev[i].ev = "visit" -> CheckVisit(i)
     [] Ev[i].ev = "build" -> CheckBuild(i)
     [] Ev[i].ev = "macro" -> CheckMacro(i)
-    [] Ev[i].ev = "edit" -> CheckEdit(i)
+    [] Ev[i].ev = "edit" -> AllTrue({CheckEdit(i), CheckEncodeDrift(i)})
     [] Ev[i].ev = "flags" -> CheckFlags(i)
     [] Ev[i].ev = "digest" -> CheckDigest(i)
     [] Ev[i].ev = "cfgbuild" -> CheckCfgBuild(i)
